@@ -40,7 +40,7 @@ NameInstantiate == <<"i","n","s","t","a","n","t","i","a","t","e">>
 NameMigrate == <<"m","i","g","r","a","t","e">>
 NameFoo == <<"f","o","o">>
 NameBar == <<"b","a","r">>
-TableNames == NameUniverse \cup SmallNames \cup {NameInstantiate, NameMigrate, NameFoo, NameBar, <<"x">>, <<"y">>, <<"z">>}
+TableNames == NameUniverse \cup SmallNames \cup {NameInstantiate, NameMigrate, NameFoo, NameBar, <<"x">>, <<"y">>, <<"z">>, <<"a","_","b">>, <<"a","_","_","b">>}
 CaseTable == TLCEval([n \in TableNames |-> [v |-> VariantDef(n), w |-> WireDef(n), near |-> NearDef(n)]])
 VariantFast(n) == CaseTable[n].v
 WireFast(n) == CaseTable[n].w
@@ -136,6 +136,19 @@ OvProg(id, ov) ==
 OverrideProgs == << OvProg("O1", {"instantiate"}), OvProg("O2", {"exec"}), OvProg("O3", {"query"}), OvProg("O4", {"sudo"}),
                     OvProg("O5", {"migrate"}), OvProg("O6", {"exec", "sudo"}), OvProg("O7", {"instantiate", "query", "migrate"}) >>
 
+(* programs in which two parts share a wire name (C05): they must not build *)
+ColProg(id, a, ka, b, kb, na, nb) ==       \* part a declares na with kind ka, part b declares nb with kind kb
+    LET meth(part, name, kind) == IF part = "own" THEN <<>> ELSE <<Sh(name, kind, "ok")>> IN
+    [id |-> id, family |-> "collide", overrides |-> {},
+     parts |-> << [id |-> "i1", methods |-> (IF a = "i1" THEN <<Sh(na, ka, "ok")>> ELSE <<>>) \o (IF b = "i1" THEN <<Sh(nb, kb, "ok")>> ELSE <<>>)],
+                  [id |-> "i2", methods |-> (IF a = "i2" THEN <<Sh(na, ka, "ok")>> ELSE <<>>) \o (IF b = "i2" THEN <<Sh(nb, kb, "ok")>> ELSE <<>>)],
+                  [id |-> "own", methods |-> <<Sh(NameInstantiate, "instantiate", "ok")>>
+                                             \o (IF a = "own" THEN <<Sh(na, ka, "ok")>> ELSE <<>>) \o (IF b = "own" THEN <<Sh(nb, kb, "ok")>> ELSE <<>>)] >>]
+CollideProgs == << ColProg("X1", "i1", "exec", "own", "exec", NameFoo, NameFoo),                       \* contract and interface
+                   ColProg("X2", "i1", "sudo", "i2", "sudo", <<"a","_","b">>, <<"a","_","_","b">>),     \* equal only after casing
+                   ColProg("X3", "i2", "query", "own", "query", NameBar, NameBar),
+                   ColProg("X4", "i1", "exec", "i2", "sudo", NameFoo, NameFoo) >>                      \* same name, different kinds: no collision
+
 (* the exhaustive small family: every slot holds a subset (<= 1 element) of SmallNames *)
 SmallParts == [i \in 1..(Ifaces + 1) |-> IF i = Ifaces + 1 THEN "own" ELSE PartIds[i]]
 SmallSlots == (1..(Ifaces + 1)) \X {"exec", "sudo"}
@@ -160,12 +173,12 @@ PermTwin(p) ==
 RawSeq ==      \* all programs of this instance, as a sequence
        [gi \in 1..Len(Groups) |-> CorpusProg(gi)]
     \o [i \in 1..Len(SmallFs) |-> SmallProgOf(SmallFs[i], "m" \o ToString(i))]
-    \o <<Shared1, Shared2, PermTwin(Shared1), PermTwin(CorpusProg(1))>> \o OverrideProgs
+    \o <<Shared1, Shared2, PermTwin(Shared1), PermTwin(CorpusProg(1))>> \o OverrideProgs \o CollideProgs
 
 (* the table of elaborated programs: the static semantics applied once per program *)
 ElabSeq == TLCEval([i \in 1..Len(RawSeq) |-> Elab(RawSeq[i])])
 ProgTable == ElabSeq          \* program "ids" of the model are indices into this sequence
-CompiledIds == {i \in 1..Len(RawSeq) : RawSeq[i].family \in {"corpus", "shared", "perm", "override"}}
+CompiledIds == {i \in 1..Len(RawSeq) : RawSeq[i].family \in {"corpus", "shared", "perm", "override", "collide"}}
 
 (* ------------------------------------------------------------ documents *)
 KeyUniverse(q) == EWireUniverse(q) \cup EArgUniverse(q) \cup {"zz_unknown"}
@@ -252,9 +265,9 @@ EmitCorpus ==
 (* design lemmas evaluated once (constant level) *)
 LemmaC01Naming == \A n \in NameUniverse : IsShapeName(n) => WireDef(n) = n
 LemmaListsSorted ==
-    \A id \in {i \in CompiledIds : RawSeq[i].family # "override"} : \A i \in 1..Len(RawSeq[id].parts) : \A k \in EnumKinds :
+    \A id \in {i \in CompiledIds : RawSeq[i].family \notin {"override", "collide"}} : \A i \in 1..Len(RawSeq[id].parts) : \A k \in EnumKinds :
         LET l == NameListC(RawSeq[id].parts[i], k) IN \A x \in 1..(Len(l) - 1) : NameLess(l[x], l[x + 1])
-LemmaCorpusAccepted == \A id \in CompiledIds : ProgTable[id].accepted
+LemmaCorpusAccepted == \A id \in CompiledIds : ProgTable[id].accepted = (RawSeq[id].family # "collide" \/ RawSeq[id].id = "X4")
 LemmaCorpusCoversUniverse ==
     {Str(n) : n \in NameUniverse} =
         UNION {{m.name : m \in {x \in EAllMethods(ProgTable[id]) : x.kind \in EnumKinds}} :
